@@ -39,3 +39,14 @@ Print Assumptions C08_j1939_22_no_fault.
 Theorem C08_checker_rejects_unprotected_lookup : safe true false (SSeq2 (SAcc KLookup false) (SAcc KDel false)) = None.
 Proof. exact unsafe_is_rejected. Qed.
 Print Assumptions C08_checker_rejects_unprotected_lookup.
+
+From J1939 Require Import SkelDefs FlowDefs.
+From J1939.gen Require Import SkelGen.
+From J1939P Require Import FlowProofs OrderProofs.
+
+(* the orderings that make reception during a send harmless (generated skeletons): session stored / record updated
+   before the frame goes out, on both layers *)
+Theorem C08_state_before_send : never_commits_after_send order_send21 /\ never_commits_after_send order_burst21 /\
+                                never_commits_after_send order_send22 /\ never_commits_after_send order_burst22.
+Proof. repeat split; [exact order_send21_ok|exact order_burst21_ok|exact order_send22_ok|exact order_burst22_ok]. Qed.
+Print Assumptions C08_state_before_send.
